@@ -332,10 +332,18 @@ impl DateReply {
         Tz: TimeZone,
         Tz::Offset: Display,
     {
-        use chrono::{Datelike, Timelike};
+        use chrono::{Datelike, Offset, Timelike, Utc};
+        // RFC 3339 offsets have no seconds. Formatting a local time whose
+        // offset has them (Amsterdam in 1930 is +00:19:32) rounds the offset
+        // and so names another instant; give such an instant in UTC.
+        let rfc3339 = if date.offset().fix().local_minus_utc() % 60 != 0 {
+            date.with_timezone(&Utc).to_rfc3339()
+        } else {
+            date.to_rfc3339()
+        };
         DateReply {
             string: date.to_string(),
-            rfc3339: date.to_rfc3339(),
+            rfc3339,
             year: date.year(),
             month: date.month() as i32,
             day: date.day() as i32,
